@@ -366,3 +366,44 @@ def check_variants(which: int) -> bool:
         if back != exp and back != BASE:
             LAST_DIFF = ('schema written for the component does not load back', back, BASE); return False
     return True
+
+
+with notrace():
+    _bp1 = load_bp()
+    MOVABLE = [('O_OBJ', n) for n, _ in enumerate(_bp1.select_many('O_OBJ'))] + [('R_REL', n) for n, _ in enumerate(_bp1.select_many('R_REL'))]
+NMOV = len(MOVABLE)
+
+
+def check_nested(mi: int, how: int) -> bool:
+    """
+    pre: 0 <= mi < NMOV and 0 <= how < 2
+    post: POST(_)
+    """
+    # restricting to a component: a class / an association moved into a package of a component NESTED in the
+    # component is still contained in it, so the component (and the whole model) is extracted unchanged
+    global LAST_DIFF
+    if not HAS_CC:
+        return None
+    mi = cs(mi, 0, NMOV - 1); how = cs(how, 0, 1)
+    kind, n = MOVABLE[mi]
+    with notrace():
+        bp = load_bp()
+        inst = list(bp.select_many(kind))[n]
+        pe = one(inst).PE_PE[8001]()
+        home = one(pe).EP_PKG[8000]()
+        if home is None:
+            return None
+        outer = bp.select_one('C_C')
+        c_c = bp.new('C_C', Name='Inner', Mult=0, isRealized=False)
+        pe_c = bp.new('PE_PE', Visibility=1, type=2)
+        xtuml.relate(c_c, pe_c, 8001); xtuml.relate(pe_c, home, 8000)
+        pkg = bp.new('EP_PKG', Name='P')
+        pe_p = bp.new('PE_PE', Visibility=1, type=7)
+        xtuml.relate(pkg, pe_p, 8001); xtuml.relate(pe_p, c_c, 8003)
+        xtuml.unrelate(pe, home, 8000); xtuml.relate(pe, pkg, 8000)
+    if how == 0:
+        dom = ooaofooa.mk_component(bp, outer)
+    else:
+        dom = ooaofooa.mk_component(bp)
+    case(EDIT, kind, n, how)
+    return finish(dom, copy_sig(BASE), 'moved %s #%d into a nested component (variant %d)' % (kind, n, how))
